@@ -75,8 +75,8 @@ NM = 3 if THOROUGH else 2
 @obligation(funcs=["web.start_client", "storage.base.BaseStorage.subscribe", "storage.base.BaseStorage.unsubscribe",
                    "storage.base.BaseStorage.notify_all_connected", "storage.base.BaseSubscription.notify",
                    "storage.kv.LMDBStorage.add_event"],
-            timeout=(450, 1800), params=range(2),
-            bounds="connection 1 sends <=2 (thorough 3) messages by symbolic selector from {REQ a kinds[1], REQ a kinds[2], REQ b "
+            timeout=(450, 1800), params=range(4),
+            bounds="PARAM 2,3 = PARAM 0,1 with every frame of connection 1 already buffered (the handler reads them back to back without yielding, so a CLOSE / replacement can overtake the stored-query task: then AT MOST one EOSE per accepted REQ).  connection 1 sends <=2 (thorough 3) messages by symbolic selector from {REQ a kinds[1], REQ a kinds[2], REQ b "
                    "kinds[1], CLOSE a, CLOSE b, REQ c kinds[1], REQ a <invalid filter>, REQ a <no filter>, REQ 7, CLOSE 7}, then (PARAM 0) stays connected / (PARAM 1) disconnects; then "
                    "connection 2 submits a kind-1 event; subscription_limit symbolic in {1,2}; 1 stored event per query")
 def ob_sequence(ms: List[int], limit: int) -> str:
@@ -93,6 +93,10 @@ def ob_sequence(ms: List[int], limit: int) -> str:
     store.db = _Env()
     msgs = [list(pick(MSGS, m)) for m in ms]
     conn1 = C.Conn(loop, msgs)
+    EAGER = PARAM >= 2
+    MODE = PARAM % 2
+    if EAGER:
+        conn1.eager = [True] * len(msgs)
     conn2 = C.Conn(loop, [["EVENT", dict(C.VALID_EVENT)]])
     gate = {"open": False}
     orig_recv2 = conn2.ws_recv
@@ -101,7 +105,7 @@ def ob_sequence(ms: List[int], limit: int) -> str:
         # connection 2 speaks only after connection 1 has said everything (and, PARAM 1, has gone)
         while not gate["open"]:
             await loop.idle()
-            gate["open"] = conn1.delivered >= len(conn1.messages) and (PARAM == 0 or conn1.gone)
+            gate["open"] = conn1.delivered >= len(conn1.messages) and (MODE == 0 or conn1.gone)
         return await orig_recv2()
 
     conn1.gone = False
@@ -109,7 +113,7 @@ def ob_sequence(ms: List[int], limit: int) -> str:
 
     async def recv1():
         if conn1.delivered >= len(conn1.messages):
-            if PARAM == 1:
+            if MODE == 1:
                 conn1.gone = True
                 return await orig_recv1()      # raises WebSocketDisconnected
             while not conn2.sent or True:
@@ -149,12 +153,24 @@ def ob_sequence(ms: List[int], limit: int) -> str:
                 open_subs[sid] = m[2]       # a REQ without a valid filter is answered by EOSE and opens nothing
         else:
             open_subs.pop(sid, None)
-    if PARAM == 1:
+    if MODE == 1:
         open_subs = {}
     frames = conn1.frames()
     got_answers = [(f[0], f[1]) for f in frames if f[0] == "EOSE"] + [("NOTICE", None) for f in frames if f[0] == "NOTICE"]
-    if len([a for a in answered if a[0] == "EOSE"]) != len([g for g in got_answers if g[0] == "EOSE"]):
+    n_acc = len([a for a in answered if a[0] == "EOSE"])
+    n_eose = len([g for g in got_answers if g[0] == "EOSE"])
+    if not EAGER and n_acc != n_eose:
         return "accepted REQs %r but EOSE frames %r" % (answered, got_answers)
+    if EAGER:
+        # a REQ overtaken by CLOSE / replacement / disconnect may lose its EOSE, never gain one
+        for sid in set(a[1] for a in answered):
+            acc = len([a for a in answered if a == ("EOSE", sid)])
+            got = len([g for g in got_answers if g == ("EOSE", sid)])
+            still_open = 1 if (sid in open_subs or (MODE == 0 and any(a == ("EOSE", sid) for a in answered[-1:]))) else 0
+            if got > acc:
+                return "sub %r: %d EOSE frames for %d accepted REQs" % (sid, got, acc)
+            if MODE == 0 and sid in open_subs and got < 1:
+                return "sub %r is open after all messages but never got its EOSE: %r" % (sid, got_answers)
     if len([a for a in answered if a[0] == "NOTICE"]) != len([g for g in got_answers if g[0] == "NOTICE"]):
         return "refused REQs %r but frames %r" % (answered, [f[:2] for f in frames])
     live = [f[1] for f in frames if f[0] == "EVENT" and f[2]["id"] == C.ID1]
@@ -165,7 +181,7 @@ def ob_sequence(ms: List[int], limit: int) -> str:
     ok2 = [f for f in conn2.frames() if f[0] == "OK"]
     if len(ok2) != 1 or ok2[0][2] is not True:
         return "submitter got %r" % (conn2.frames(),)
-    if PARAM == 1 and len(store.clients) != 0:
+    if MODE == 1 and len(store.clients) != 0:
         return "registry keeps %d clients after both disconnected" % len(store.clients)
     return "ok" if msgs else "ok-trivial"
 
